@@ -9,6 +9,7 @@ import (
 	"sort"
 	"strings"
 	"sync"
+	"sync/atomic"
 	"time"
 
 	"verif/fw"
@@ -226,6 +227,15 @@ func e2eCase(c *fw.Ctx, r *fw.Rand, idx int) {
 			sel = 3
 			p.Local = false
 		}
+		if a == 0 && down < 0 {
+			// the first add of a case: sharded, one holder per shard, no fault, small shards - with
+			// the members' free space changing all the time, shards end up on different peers
+			p.Shard, p.Local, sel, rf = true, false, 3, "1"
+			p.ReplicationFactorMin, p.ReplicationFactorMax = 1, 1
+			p.UserAllocations = nil
+			p.ShardSize = uint64(chunk*6 + 2000)
+			t = &tree{file: genBytes(r, chunk*r.Range(25, 45))} // four shards or more
+		}
 		switch sel {
 		case 0:
 			ft = fault{peer: r.Intn(n), at: r.Range(1, 6)}
@@ -248,9 +258,35 @@ func e2eCase(c *fw.Ctx, r *fw.Rand, idx int) {
 		}
 		input := files.NewSliceDirectory([]files.DirEntry{files.FileEntry("input", t.node())})
 		pp := *p
+		// during a sharded add the members' free space changes after every allocation, so
+		// that one shard's allocation need not be the next one's
+		var rotN int64
+		if sa, ok := peers[at].Node.Alloc.(*sim.SwitchAllocator); ok && p.Shard {
+			sa.After = func() {
+				k := int(atomic.AddInt64(&rotN, 1))
+				var rot []*api.Metric
+				for i, id := range ids {
+					rot = append(rot, &api.Metric{Name: "freespace", Peer: id, Value: fmt.Sprint(1000 + (i+k)%n), Valid: true, Expire: time.Now().Add(time.Hour).UnixNano()})
+				}
+				for _, pr := range peers {
+					if pr.Mon != nil {
+						pr.Mon.SetMetrics("freespace", rot)
+					}
+				}
+			}
+			defer func() { sa.After = nil }()
+		}
 		actx, cancel := context.WithTimeout(ctx, 60*time.Second)
 		root, err := adder.New(dgs, &pp, nil).FromFiles(actx, input)
 		cancel()
+		if sa, ok := peers[at].Node.Alloc.(*sim.SwitchAllocator); ok {
+			sa.After = nil
+		}
+		for _, pr := range peers {
+			if pr.Mon != nil {
+				pr.Mon.SetMetrics("freespace", fs)
+			}
+		}
 		fmu.Lock()
 		cur = fault{}
 		reached := false
@@ -353,6 +389,13 @@ func e2eCase(c *fw.Ctx, r *fw.Rand, idx int) {
 				c.Violation("C13/e2e/no-shard-pins", "sharded add: no shard entries in the pinset", detail)
 				continue
 			}
+		}
+		if p.Shard {
+			distinct := map[string]bool{}
+			for _, u := range units {
+				distinct[strings.Join(gen.SortedPeers(u.pin.Allocations), ",")] = true
+			}
+			c.Cover(fmt.Sprintf("e2e/sharded/shards=%d/distinct-allocations=%d", min(len(units), 5), min(len(distinct), 4)))
 		}
 		for _, u := range units {
 			holders := ids
